@@ -552,6 +552,9 @@ example : PolOK (.rls (fin (9/10)) (fin 2) 50 : Policy (XR ℚ)) := ⟨⟨9/10, 
 -- search loop: budget 3, nothing accepted → the last value tried, L₀γ² (not L₀γ³)
 example : searchLoop (fin 2 : XR ℚ) (fun _ L => L) (fun _ _ => false) 3 0 (fin 1) = some (fin 4, fin 4, 3) := by
   simp [searchLoop, XR.mul]; norm_num
+-- the hypothesis `γ_u > 0` of the positivity theorems is needed: with `γ_u = −1` a rejected first trial makes `L` negative
+example : searchLoop (fin (-1) : XR ℚ) (fun _ L => L) (fun _ _ => false) 2 0 (fin 1) = some (fin (-1), fin (-1), 2) := by
+  simp [searchLoop, XR.mul]
 -- accepted at the second trial
 example : searchLoop (2 : ℚ) (fun _ L => L) (fun L _ => decide (2 ≤ L)) 5 0 1 = some (2, 2, 2) := by
   simp [searchLoop]
